@@ -10,6 +10,7 @@ package main
 
 import (
 	"go/ast"
+	"go/token"
 	"go/types"
 	"strings"
 )
@@ -257,4 +258,65 @@ func pkgNameOf(info *types.Info, e ast.Expr) types.Object {
 		return info.ObjectOf(id)
 	}
 	return nil
+}
+
+// E8.cursor-unchanged — the cursor of a position query (a parameter of type hcl.Pos) is the
+// caller's question. No function re-assigns it or one of its components: every range test
+// and every returned range downstream is stated in terms of the position that was asked for.
+func runCursorUnchanged(p *Prog, r *Report) {
+	n := 0
+	for _, fn := range p.Funcs {
+		if fn.Body == nil || fn.Type.Params == nil {
+			continue
+		}
+		info := fn.Info()
+		var params []types.Object
+		for _, f := range fn.Type.Params.List {
+			for _, nm := range f.Names {
+				if o := info.ObjectOf(nm); o != nil && isHclPos(o.Type()) {
+					params = append(params, o)
+				}
+			}
+		}
+		for _, po := range params {
+			n++
+			var bad ast.Node
+			what := ""
+			ast.Inspect(fn.Body, func(x ast.Node) bool {
+				if bad != nil {
+					return false
+				}
+				check := func(lhs ast.Expr, at ast.Node) {
+					if baseObj(info, lhs) == po {
+						switch ast.Unparen(lhs).(type) {
+						case *ast.Ident, *ast.SelectorExpr:
+							bad, what = at, exprStr(lhs)
+						}
+					}
+				}
+				switch s := x.(type) {
+				case *ast.AssignStmt:
+					for _, l := range s.Lhs {
+						check(l, s)
+					}
+				case *ast.IncDecStmt:
+					check(s.X, s)
+				case *ast.UnaryExpr:
+					if s.Op == token.AND && baseObj(info, s.X) == po {
+						bad, what = s, "&"+exprStr(s.X)
+					}
+				}
+				return true
+			})
+			key := "cursor parameter " + po.Name()
+			if bad == nil {
+				r.Add("E8.cursor-unchanged", fn.Name, key, p.Pos(fn.Type), OK, "never assigned, none of its components assigned, address not taken", false)
+			} else {
+				r.Add("E8.cursor-unchanged", fn.Name, key, p.Pos(bad), Violated,
+					"the queried position is modified ("+what+"): everything decided and returned below refers to another position than the one that was asked for", true)
+			}
+		}
+	}
+	r.ExpectMin("E8.cursor-parameters", n, 60)
+	r.Clauses = append(r.Clauses, "E8.cursor-unchanged: no function assigns its hcl.Pos parameter, a component of it, or takes its address")
 }
